@@ -183,8 +183,8 @@ prop("C13", [sel("nth"), sel("layout", fn=r"(swap|<rule>)"), sel("guard", fn=SWA
 prop("C14", [sel("nonzero", fn=r"(copy_|clone_from|CopyOps|<rule>)"), sel("guard", fn=r"copy_within"), sel("units", fn=r"(copy_|clone_from)"), sel("dup", fn=r"(copy_|clone_from|CopyOps)")],
      "clauses only: guard/unit clauses of C14 - (R-GUARD) the six coordinates of copy_within are bounded against the dimension of their unit (directly or through the ordered source rectangle); (R-ARITH) no `+` on a caller coordinate before its guard; (R-UNITS) row offsets index rows, column offsets slice rows; (R-DUP) bitwise copies only under T: Copy via slice methods; (R-NONZERO) no chunks*/division sees a possibly-zero column count (empty destinations are valid shapes).",
      declined=["overlap direction of copy_within and row-major equality of the result (iteration order vs values)"])
-prop("C15", [sel("guard", fn=r"translate"), sel("units", fn=r"(translate|flip)"), sel("dup", fn=r"(Translate|translate|flip)")],
-     "clauses only: guard and permutation clauses of C15 - mid <= (num_cols, num_rows) with the right units; translate.rs moves elements only with swap_with_slice / rotate_left / reverse on rows obtained from the trait (no element lost or duplicated).",
+prop("C15", [sel("layout", fn=r"get_unchecked_row_mut|<rule>"), sel("guard", fn=r"translate"), sel("units", fn=r"(translate|flip)"), sel("dup", fn=r"(Translate|translate|flip)")],
+     "clauses only: guard and permutation clauses of C15 - mid <= (num_cols, num_rows) with the right units; translate.rs moves elements only with swap_with_slice / rotate_left / reverse on rows obtained from the trait (no element lost or duplicated); the unchecked row getters it relies on address row*stride .. +num_cols on every implementor (R-LAYOUT L-ROW); no cross-axis comparison of a mid-point with the other dimension (R-UNITS u1, also for equalities).",
      declined=["the position formula new[(c,r)] == old[((c+mc)%C,(r+mr)%R)] and index validity inside the cycle-leader loop (number theory, DESIGN 2.2)"])
 prop("C16", [sel("deleg", fn=r"sort_.*row"), sel("sortshape", fn=r"sort_.*row"), sel("guard", fn=r"sort_.*row"), sel("units", fn=r"sort_.*row"), sel("dup", fn=r"sort_.*row")],
      "clauses only: sort-by-row family - (R-DELEG) each wrapper reaches the core of its own axis and stability with its index forwarded; (R-SORTSHAPE) s1 side sort of matching stability, s2 comparator/key argument order, s4 the swap trace is applied to every row, s5 user code only before the first write; (R-GUARD) row < num_rows; (R-DUP) only ptr::swap moves elements.",
@@ -198,6 +198,6 @@ prop("C18", [sel("serde", desc=r"^(t1|t2)|t1 |t2 ")],
 prop("C19", [sel("serde"), sel("zero", fn=r"visit_map|Deserialize")],
      "Deserialisation, structural clauses: (t4) the reader's own code has no panicking callee or bounds assertion, and each panic condition of the asserting constructor it calls - K_OVF, K_LEN (classified from the constructor's MIR), K_ZERO (R-ZERO at the call) - is discharged by a dominating guard whose failing edge returns Err; (t1) missing/unknown fields are errors; the constructor receives the parsed values in order.",
      declined=["panics inside serde / serde_json / the element type's Deserialize"])
-prop("C20", [sel("zero", fn=CTORS), sel("deleg", fn=r"from_box"), sel("units", fn=CTORS)],
-     "Constructors, structural clauses: (R-ZERO) new/init/from_vec/TooDeeView::new/TooDeeViewMut::new and every other construction site only build arrays whose dimensions are both zero or both non-zero; (R-UNITS u5) fields are initialised from parameters of their own unit (no exchanged dimensions, also in From<view>); (R-DELEG) from_box forwards to from_vec in order.",
+prop("C20", [sel("layout", fn=r"TooDeeView(Mut)?::new|<rule>"), sel("zero", fn=CTORS), sel("deleg", fn=r"from_box"), sel("units", fn=CTORS)],
+     "Constructors, structural clauses: (R-ZERO) new/init/from_vec/TooDeeView::new/TooDeeViewMut::new and every other construction site only build arrays whose dimensions are both zero or both non-zero; (R-UNITS u5) fields are initialised from parameters of their own unit (no exchanged dimensions, also in From<view>); (R-DELEG) from_box forwards to from_vec in order; (R-LAYOUT) the slice constructors of the views keep exactly the prefix num_cols*num_rows of the given buffer (L-PREFIX, exact extent).",
      declined=["row-major equality of contents as values; Hash/Eq agreement is the derive's contract"])
